@@ -77,8 +77,8 @@ Proof.
     + rewrite br_adv_rest. lia.
 Qed.
 
-Lemma b_spec_len r : b_RI r -> (Z.of_nat (b_rem r) <= br_len r)%Z.
-Proof. intros _. unfold b_rem, br_len, br_pos, br_rem. lia. Qed.
+Lemma b_spec_len r p : b_RI r -> (fun r0 : br => Ok (br_pos r0)) r = Ok p -> (Z.of_nat (b_rem r) <= br_len r - p)%Z.
+Proof. intros _ H. inversion H; subst. unfold b_rem, br_len, br_pos, br_rem. lia. Qed.
 
 (* never a panic, never the fuel error: any schema, any model index, any reader state *)
 Theorem bparse_total : forall d sc mi ic r, (length (rest r) < d)%nat ->
